@@ -552,10 +552,25 @@ func c13GenReq(t *rapid.T) c13Case {
 		}
 		c.Text, c.Mutation = b.String(), "xpath-soup"
 		// where needs a list target
+		var listNode *dm.Node
 		for _, p := range paths {
 			if n, _, _ := dm.Resolve(root, data, p); n.Kind == "list" && p[len(p)-1].Key == nil {
 				c.Leaf = renderPath(m.Name, p, "", false, false)
+				listNode = n
 				break
+			}
+		}
+		// half of the time a well-formed comparison over a leaf of that list (set in some rows, unset in others)
+		if listNode != nil && rapid.Bool().Draw(t, "well-formed") {
+			var leaves []string
+			for _, d := range listNode.DataChildren() {
+				if d.Kind == "leaf" {
+					leaves = append(leaves, d.Name)
+				}
+			}
+			if len(leaves) > 0 {
+				c.Text = rapid.SampledFrom(leaves).Draw(t, "operand") + rapid.SampledFrom([]string{"=", "!=", "<", "<=", ">", ">=", " = ", " < "}).Draw(t, "op") + rapid.SampledFrom([]string{"1", "0", "-1", "1.5", "'x'", "'true'", "true", "99999999999999999999", "''"}).Draw(t, "literal")
+				c.Mutation = "xpath-comparison"
 			}
 		}
 	default: // SetValue with arbitrary Go values
@@ -599,7 +614,7 @@ func c13GenReq(t *rapid.T) c13Case {
 var c13Reqs = hx.Register(&hx.Check[c13Case]{
 	Name:    "c13-requests",
 	Journal: true,
-	Rule:    "Find paths derived from a valid path by: key on a container, step below a leaf, wrong number of compound keys, junk suffix / insertion / deletion (= / , % %zz ? & .. : NUL ...), ../ past the root, token soup; query strings over every parameter name with empty, negative, huge, malformed and schema-derived values; where=/filter= XPath text as token soup (up to 300 tokens); SetValue with 27 kinds of Go values (nil, NaN, slices, maps, structs, pointers, channels, functions ...) on every leaf type; no panic or hang, key-on-container and step-below-leaf must be errors, navigation leaves the data unchanged; every case is non-trivial",
+	Rule:    "Find paths derived from a valid path by: key on a container, step below a leaf, wrong number of compound keys, junk suffix / insertion / deletion (= / , % %zz ? & .. : NUL ...), ../ past the root, token soup; query strings over every parameter name with empty, negative, huge, malformed and schema-derived values; where=/filter= XPath text as token soup (up to 300 tokens) and as well-formed comparisons with every operator over leaves that are unset in some rows; SetValue with 27 kinds of Go values (nil, NaN, slices, maps, structs, pointers, channels, functions ...) on every leaf type; no panic or hang, key-on-container and step-below-leaf must be errors, navigation leaves the data unchanged; every case is non-trivial",
 	Gen:     c13GenReq,
 	Run:     c13Run,
 })
